@@ -1,6 +1,7 @@
 use crate::ast::{BinaryOp, Commented, Expr, RecordEntry, RecordKey, SpannedExpr};
 use crate::ast_to_source::{
-    expr_to_source, format_record_key, needs_parens_in_binop, needs_parens_in_postfix,
+    expr_to_source, format_record_key, lambda_body_needs_parens, needs_parens_in_binop,
+    needs_parens_in_postfix,
 };
 use crate::values::LambdaArg;
 
@@ -588,23 +589,6 @@ fn format_do_block_multiline(
     result.push('}');
 
     result
-}
-
-/// via / into / where are not admitted at the top level of a lambda body
-fn lambda_body_needs_parens(body: &SpannedExpr) -> bool {
-    // Walk the left spine of the loosest-binding operators: `a via f and b` is printed flat
-    match &body.node {
-        Expr::BinaryOp {
-            op: BinaryOp::Via | BinaryOp::Into | BinaryOp::Where,
-            ..
-        } => true,
-        Expr::BinaryOp {
-            op: BinaryOp::And | BinaryOp::NaturalAnd | BinaryOp::Or | BinaryOp::NaturalOr,
-            left,
-            ..
-        } => lambda_body_needs_parens(left),
-        _ => false,
-    }
 }
 
 /// Convert lambda argument to string
